@@ -51,6 +51,13 @@ def facts(case):
     bw = band.waveset
     ow = other.waveset
     d = {'other_unbounded': ow is None, 'band_unbounded': bw is None}
+    lf = case['other'].get('leaf', {})
+    if lf.get('leaf') == 'empirical' and 'z' not in case['other']:
+        # a table whose two end values are not both exactly zero can only be evaluated beyond its range by extrapolation
+        ends = [unq(lf['vals'][0]), unq(lf['vals'][-1])]
+        if not lf.get('keep_neg'):
+            ends = [max(e, 0) for e in ends]       # negative values are zeroed at construction
+        d['other_untapered_table'] = not (ends[0] == 0 and ends[1] == 0)
     if bw is not None:
         x = bw.value
         y = band(x).value
@@ -181,6 +188,9 @@ def oracle_verdict(rep, case, out):
         ends = f.get('other_at_band_ends')
         if ends is None or not all(abs(e) <= 1e-8 for e in ends):
             rep.oracle_fail('check_overlap:full_without_zero_ends', 'full although not contained and other non-zero at band ends', case, out)
+        elif f.get('other_untapered_table'):
+            rep.oracle_fail('check_overlap:full_needs_extrapolation',
+                            'full although the table is not contained and its end values are not zero (however small): it would have to be extrapolated', case, out)
     if v in ('partial_most', 'partial_notmost') and f.get('total'):
         # graded by the excluded-throughput threshold (decided only where both ways of measuring it agree)
         thr = O.fl(case['ovthr']) if 'ovthr' in case else 0.01
@@ -258,8 +268,10 @@ def oracle_obs(rep, case, out):
 
 
 # ------------------------------------------------------------------ generators
-def table_on(points, tapered, rng, nonneg=True):
+def table_on(points, tapered, rng, nonneg=True, scale=None):
     vals = [O.dy(rng, 0.25, 4, 3) for _ in points]
+    if scale is not None:
+        vals = [v * scale for v in vals]
     if tapered:
         vals[0] = vals[-1] = F(0)
     return {'leaf': 'empirical', 'pts': qs(points), 'vals': qs(vals), 'keep_neg': True}
@@ -282,6 +294,7 @@ def band_variants(rng, pts):
 
 def source_variants(rng, pts):
     v = [('table', {'prim': 'source', 'leaf': table_on(pts, False, rng)})]
+    v.append(('faint_table', {'prim': 'source', 'leaf': table_on(pts, False, rng, scale=F(2) ** rng.choice([-28, -34, -50, -90]))}))
     if len(pts) >= 3:
         v.append(('table_tapered', {'prim': 'source', 'leaf': table_on(pts, True, rng)}))
     w = pts[-1] - pts[0]
@@ -339,7 +352,7 @@ def gen_grading(rng, K, n):
         b1, b2 = a1 + lo, a1 + width - hi
         spts = sorted({b1, b2} | {b1 + (b2 - b1) * F(rng.randint(1, 15), 16) for _ in range(rng.randint(0, 3))})
         band = {'prim': 'bandpass', 'leaf': table_on(bpts, False, rng)}
-        src = {'prim': 'source', 'leaf': table_on(spts, False, rng)}
+        src = {'prim': 'source', 'leaf': table_on(spts, False, rng, scale=F(2) ** rng.choice([0, 0, -20, -30, -40, -60, 30]))}
         c = {'op': 'check_overlap', 'const': K, 'band': band, 'other': O.fill_ss(src), '_kind': kind}
         if rng.random() < 0.5:
             c['ovthr'] = q(rng.choice([F(1, 1000), F(1, 200), F(1, 20), F(1, 5), F(1, 2)]))
@@ -392,7 +405,7 @@ def run(rep):
     cases += gen_grading(rng, K, 6000 if thorough else 600)
     cases += gen_random(rng, K, 40000 if thorough else 1500)
     rep.rule = ('all pairs of sub-intervals of a 6-point lattice (every interval relation incl. shared end points) x '
-                '{untapered, tapered} bandpass x {table, tapered table, box with waveset, unbounded constant, redshifted table} source: '
+                '{untapered, tapered} bandpass x {table, faint table (values 2^-28 .. 2^-90), tapered table, box with waveset, unbounded constant, redshifted table} source: '
                 'check_overlap verdicts (some with other thresholds) and Observation construction with force in '
                 '{None, none, taper, extrap, extrapolate, TAPER, Extrap, bogus}, sampled inside, outside and far outside both ranges; '
                 'plus graded placements (bandpass sticking out of an untapered source range by a sliver or a large part, on either or both sides, x 6 thresholds), random source/bandpass pairs off the lattice and overlap_status on arrays. Non-trivial: a verdict or an admission decision was produced.')
